@@ -76,7 +76,8 @@ type vfC11TurnDef struct {
 func vfC11Turns() []vfC11TurnDef {
 	q := []vfC11TurnDef{
 		{name: "emit", turn: VfTurn{Emit: 1, Rows: 1}},
-		{name: "emit+log", turn: VfTurn{Emit: 1, Rows: 1, Logs: []string{"INFO:l1"}}},
+		// logs on both sides of the emit inside one turn (position of a log relative to the data batch)
+		{name: "emit+logs-around", turn: VfTurn{Emit: 1, Rows: 1, Logs: []string{"INFO:l1"}, LateLog: "DEBUG:l2"}},
 		{name: "emit+meta", turn: VfTurn{Emit: 1, Rows: 2, Meta: []string{"uk", "uv"}}},
 		{name: "emit0", turn: VfTurn{Emit: 1, Rows: 0}},
 		{name: "emit-twice", turn: VfTurn{Emit: 2, Rows: 1}, terminal: true, termExch: true},
@@ -88,7 +89,7 @@ func vfC11Turns() []vfC11TurnDef {
 	}
 	if venum.Thorough() {
 		q = append(q,
-			vfC11TurnDef{name: "emit+latelog", turn: VfTurn{Emit: 1, Rows: 3, Logs: []string{"TRACE:a"}, LateLog: "INFO:late"}},
+			vfC11TurnDef{name: "emit+log-before", turn: VfTurn{Emit: 1, Rows: 3, Logs: []string{"TRACE:a"}}},
 			vfC11TurnDef{name: "plain-error", turn: VfTurn{Fail: "plain"}, terminal: true, termExch: true},
 			vfC11TurnDef{name: "emit+finish", turn: VfTurn{Emit: 1, Rows: 1, Finish: true}, terminal: true, termExch: true},
 		)
@@ -194,7 +195,7 @@ func TestVerif_C11(t *testing.T) {
 	maxLenProducer := venum.QT(3, 4)
 	maxLenExchange := 3
 	limits := []int{0, 1, 2, 3}
-	caches := []int{0, -1} // -1 = leave the default
+	caches := []int{0, -1}                             // -1 = leave the default
 	instances := venum.QT([]int{1, 3}, []int{1, 2, 3}) // quick: 2 instances are covered by the call-sequences space
 
 	// First choice point: one fixed-arity index over kind x header x instances
@@ -375,7 +376,7 @@ func TestVerif_C11(t *testing.T) {
 		turns []VfTurn
 	}{
 		{"emit,emit", []VfTurn{{Emit: 1, Rows: 1}, {Emit: 1, Rows: 2}}},
-		{"emit+meta,emit+log", []VfTurn{{Emit: 1, Rows: 1, Meta: []string{"uk", "uv"}}, {Emit: 1, Rows: 1, Logs: []string{"INFO:l"}}}},
+		{"emit+meta,emit+log", []VfTurn{{Emit: 1, Rows: 1, Meta: []string{"uk", "uv"}}, {Emit: 1, Rows: 1, Logs: []string{"INFO:l"}, LateLog: "INFO:after"}}},
 		{"emit,rpc-error", []VfTurn{{Emit: 1, Rows: 1}, {Fail: "rpc:ValueError"}}},
 	}
 	seqSchemas := []*arrow.Schema{vfOutSchema, vfI64Schema("w"), arrow.NewSchema([]arrow.Field{{Name: "v", Type: arrow.PrimitiveTypes.Int64, Nullable: true}}, nil)}
